@@ -235,6 +235,16 @@ pub fn record(st: &mut Stats, f: &Finding) {
 pub fn run(ctx: &Ctx) -> i32 {
     let n_expr = ctx.n(300_000, 10_000_000);
     let n_rand = ctx.n(300, 30_000);
+    // What an operator returns must not depend on which instantiation of the value type the
+    // process used first.  This process runs the narrow instantiation (i32) once before anything
+    // else, so the wide one (i64) is always judged after it; C17's release process does it the
+    // other way round.
+    {
+        let mut st = Stats::new();
+        let mut rng = Rng::new(ctx.seed, 161616);
+        let mut sink: Vec<Finding> = vec![];
+        direct_i32_f64(&mut rng, 3, &mut st, &mut sink);
+    }
     let stats = run_workers(ctx, 16, |w, rng, st| {
         // the catalogue is enumerated exhaustively by worker 0 and 1 (one type pair each);
         // every worker adds its own random operands
